@@ -811,6 +811,17 @@ func (s *session) stepComplain(cid int, shape string, cs []cspec, hon bool) {
 		for i := range list {
 			list[i].Complainant = tss.MemberID(o)
 		}
+	case "foreign":
+		// the sender's own complaint(s) first, then one in the name of ANOTHER member (with a proof that cannot verify):
+		// the whole message must be refused - processed, it would blame that member
+		if len(list) > 0 {
+			extra := list[len(list)-1]
+			extra.Complainant = tss.MemberID(s.otherID(src.id))
+			if extra.Respondent == extra.Complainant {
+				extra.Respondent = tss.MemberID(src.id)
+			}
+			list = append(list, extra)
+		}
 	}
 	msg := tsstypes.NewMsgComplain(s.gid, list, s.sender(c, shape))
 	o := s.deliver(msg)
@@ -998,7 +1009,7 @@ func (s *session) apply(step tf.M) {
 var r1Bad = []string{"wrongLen", "badA0Sig", "badOneTimeSig", "a0OtherId", "otOtherId", "a0OtherCtx", "otOtherCtx", "wrongMemberId", "nonMember"}
 var r2Bad = []string{"wrongLen", "wrongMemberId", "nonMember"}
 var confBad = []string{"badSig", "wrongMemberId", "nonMember"}
-var compBad = []string{"malformed", "selfComplaint", "wrongMemberId", "nonMember"}
+var compBad = []string{"malformed", "selfComplaint", "wrongMemberId", "nonMember", "foreign", "foreign"}
 var kinds = []string{"gen", "badKeySym", "badSig"}
 
 // RandomScript: a DKG with random submission orders inside each round, block ends at random
